@@ -822,6 +822,10 @@ class Program:
             from .ctxmgr import inline_context_managers
 
             cm_stats.update(inline_context_managers({mn: m.tree for mn, m in self.modules.items() if not mn.startswith(PKG + ".testing") and mn != PKG + ".testing"}))
+        if os.environ.get("VERIF_SA_NO_GENLOOP") != "1":
+            from .genloop import inline_generator_loops
+
+            cm_stats.update(inline_generator_loops({mn: m.tree for mn, m in self.modules.items() if not mn.startswith(PKG + ".testing") and mn != PKG + ".testing"}))
         if os.environ.get("VERIF_SA_NO_INLINE") != "1":
             self.inline_stats = inline_package({mn: m.tree for mn, m in self.modules.items() if not mn.startswith(PKG + ".testing") and mn != PKG + ".testing"}, keep)
         self.inline_stats.update(cm_stats)
